@@ -1408,6 +1408,7 @@ func (e *Engine) runHooks(st *State, in ssa.Instruction, t callTarget, after boo
 				continue
 			}
 			env := st.specEnv("hook")
+			env.scope = in.Block()
 			names := paramNames(t)
 			for j, n := range names {
 				if j < len(t.args) {
